@@ -11,7 +11,8 @@
       (contiguous ranges, nothing skipped inside a lifetime or across a restart),
     * `StoreBlock(v)` happens only in a round in which every handler was invoked and returned nil, and `v` is
       never beyond that frontier; a failed handler / unreadable node leaves cursor and store where they were,
-    * every lifetime not configured with `latest` starts at or below the frontier.
+    * every lifetime not configured with `latest` starts at or below the frontier; the frontier is initially the
+      relayer's starting point `gsb` (stored / configured start block), so this binds the FIRST lifetime too.
   `P05` is the predicate the driver evaluates on the history produced by the REAL listeners, block store and chain
   objects. With the `latest` flag a lifetime starts at the head by configuration; the checker re-anchors the
   frontier there (stated in `chkStart`), so nothing is claimed about blocks before that head.
@@ -53,11 +54,6 @@ theorem align_mono (a b k : Int) (hk : 0 < k) (h : a ≤ b) : align a k ≤ alig
 
 /-- what `app.Run` does to the block it got from `GetStartBlock` -/
 def post (cfg : Cfg) (x : Int) : Int := match cfg.kind with | .btc => x | _ => align x cfg.k
-
-/-- value of `GetStartBlock` without the `latest` flag -/
-def gsb (w : Wiring) (stored : Option Int) : Int :=
-  if w.fresh then w.cfgStart
-  else if lastStored stored > w.cfgStart then lastStored stored else w.cfgStart
 
 theorem getStartBlock_some (w : Wiring) (stored : Option Int) (hl : w.latest = false) :
     getStartBlock w stored = some (gsb w stored) := by
@@ -321,8 +317,11 @@ section Property
     wiring, any initial store content, any number of lifetimes with arbitrary heads, RPC / handler / store
     failures and process deaths at any visible step — is accepted by the no-skip checker `P05`. -/
 theorem runAll_P05 (cfg : Cfg) (hwf : WF cfg) (w : Wiring) (stored0 : Option Int) (lifes : List (List SRound)) :
-    P05 cfg w lifes (runAll cfg w stored0 lifes) = true := by
-  obtain ⟨hi', h⟩ := runAll_ok cfg hwf w lifes none stored0 (by intro _ H hH; cases hH)
+    P05 cfg w stored0 lifes (runAll cfg w stored0 lifes) = true := by
+  obtain ⟨hi', h⟩ := runAll_ok cfg hwf w lifes (if w.latest then none else some (gsb w stored0)) stored0 (by
+    intro hl H hH
+    simp [hl] at hH; subst hH
+    exact post_le cfg hwf _)
   simp [P05, h]
 
 /-- the excluded point `latest = true`, stated: the lifetime starts at the head (BTC: nil start; EVM/Substrate: the
@@ -334,12 +333,15 @@ theorem latest_starts_at_head (cfg : Cfg) (w : Wiring) (stored : Option Int) (hl
 /-- the checker is not vacuous: the history of the unrepaired BTC wiring (every lifetime starts at the head,
     blocks 7..11 skipped) is rejected, as is a cursor persisted past a range whose second handler failed -/
 example :
-    P05 ⟨.btc, 1, 1, 1⟩ ⟨3, false, false, 0⟩
+    P05 ⟨.btc, 1, 1, 1⟩ ⟨3, false, false, 0⟩ none
       [[(⟨some 5, none, true⟩, none), (⟨some 6, none, true⟩, none)], [(⟨some 12, none, true⟩, none), (⟨some 13, none, true⟩, none)]]
       [(some 3, [⟨some 5, [⟨0, 3, 3⟩], some (3, true)⟩, ⟨some 6, [⟨0, 4, 4⟩], some (4, true)⟩]),
        (some 12, [⟨some 12, [], none⟩, ⟨some 13, [⟨0, 12, 12⟩], some (12, true)⟩])] = false ∧
-    P05 ⟨.evm, 2, 1, 2⟩ ⟨2, false, false, 0⟩ [[(⟨some 9, some 1, true⟩, none)]]
-      [(some 2, [⟨some 9, [⟨0, 2, 3⟩, ⟨1, 2, 3⟩], some (4, true)⟩])] = false := by decide
+    P05 ⟨.evm, 2, 1, 2⟩ ⟨2, false, false, 0⟩ none [[(⟨some 9, some 1, true⟩, none)]]
+      [(some 2, [⟨some 9, [⟨0, 2, 3⟩, ⟨1, 2, 3⟩], some (4, true)⟩])] = false ∧
+    -- a first lifetime that begins one block above the configured start (block 3 never handled)
+    P05 ⟨.btc, 1, 1, 1⟩ ⟨3, false, false, 0⟩ none [[(⟨some 9, none, true⟩, none)]]
+      [(some 4, [⟨some 9, [⟨0, 4, 4⟩], some (4, true)⟩])] = false := by decide
 
 /-- non-vacuity of the theorem: two lifetimes, a handler failure, a store failure, a death after the handlers ran
     but before the store write; the restart re-scans from the persisted cursor 4 -/
